@@ -71,6 +71,16 @@ def build_arg(kind, form, dim=None):
         alts = [lambda: {cif.PD_SCHEMA}, lambda: {cif.PD_SCHEMA, mine}, lambda: [cif.PD_SCHEMA], lambda: (mine,),
                 lambda: cif.PD_SCHEMA, lambda: {cif.CORE_SCHEMA, mine}, lambda: frozenset({mine}), lambda: set()]
         return alts[form.get("choice", form["seed"]) % len(alts)](), None
+    if kind == "cif_item":
+        # a ready-made chunk or loop the caller owns (and may have put into other blocks)
+        import scipp as sc
+        from scippneutron.io import cif
+
+        alts = [lambda: cif.Chunk({"p.a": 1.5, "p.b": "two"}, comment="owner's comment"),
+                lambda: cif.Loop({"q.x": sc.array(dims=["r"], values=[1.0, 2.0])}, comment=""),
+                lambda: cif.Chunk({"p.c": 3}),
+                lambda: cif.Loop({"q.y": sc.array(dims=["r"], values=["u", "v w"])}, comment="shared by all runs")]
+        return alts[form.get("choice", form["seed"]) % len(alts)](), None
     if kind == "vec_axis0":
         # a direction as callers have it: already a unit vector, or a difference of two
         # positions (not normalised, with a length unit), or any vector along the axis
@@ -461,6 +471,24 @@ def _cif_ctors(*, schema, column):
             "schemas": [sorted(x.name for x in o.schema) for o in (chunk, loop, block)]}
 
 
+def _block_add(*, item, other):
+    """Block.add / Block(...) with ready-made items and with the optional comment."""
+    from scippneutron.io import cif
+
+    first = cif.Block("run_a", [item])
+    second = cif.Block("run_b", [other], comment="b")
+    second.add(item, comment="comment given to add")
+    second.add({"d.e": 1}, comment="dict item")
+    third = first.copy()
+    third.add(other)
+    out = {}
+    for b in (first, second, third):
+        s = io.StringIO()
+        cif.save_cif(s, b)
+        out[b.name + str(len(out))] = _canon_cif_text(s.getvalue())
+    return out
+
+
 def _cylinder_ctor(*, symmetry_line, center_of_base, radius, height):
     """Constructing the public shape classes is an entry point like any other."""
     from scippneutron.absorption.cylinder import Cylinder
@@ -486,6 +514,7 @@ KINDS["density_s"] = {"target": "1/angstrom**3", "others": ["1/nm**3", "1/m**3"]
                       "lo": 0, "hi": 1}
 VEC_KINDS["vec_axis0"] = "dimensionless"
 VEC_KINDS["schema_arg"] = "dimensionless"
+VEC_KINDS["cif_item"] = "dimensionless"
 VEC_KINDS["vec_base0"] = "mm"
 
 CALLS.update({
@@ -493,6 +522,7 @@ CALLS.update({
     "peaks.model.guess(counts)": (lambda: _guess_all, {"$data": "counts"}),
     "peaks.fit_peaks(counts)": (lambda: _fit_counts, {"$data": "counts"}),
     "cif.Chunk/Loop/Block(schema=...)": (lambda: _cif_ctors, _kw(schema="schema_arg", column="xgrid")),
+    "cif.Block.add(item, comment)": (lambda: _block_add, _kw(item="cif_item", other="cif_item")),
     "absorption.Cylinder(...)": (lambda: _cylinder_ctor, _kw(symmetry_line="vec_axis0", center_of_base="vec_base0",
                                                             radius="cyl_radius", height="cyl_height")),
     "absorption.Material(...)": (lambda: _material_ctor, _kw(density="density_s", wavelength="wavelength_s")),
@@ -1611,7 +1641,7 @@ class C09Engine(Engine):
                 "io.xye": None, "io.cif": None}
         reached = " ".join(list(CALLS) + list(FACTORIES) + list(DERIVES) + list(HCALLS)) + " " + " ".join(
             inspect.getsource(f) for f in (_model, _deduce, _cif_lowlevel, _from_nexus, _disk_chopper, _subframe, _source_pulse, _model_call, _model_params,
-                                           _transmission, _plateaus, _components, _fit_small, _fit_counts, _guess_all, _cif_ctors, _convert,
+                                           _transmission, _plateaus, _components, _fit_small, _fit_counts, _guess_all, _cif_ctors, _block_add, _convert,
                                            _remove_peaks_call, _xye_roundtrip, _cif_save, _cif_save_wrapper, _block_write,
                                            _use_graph, _call_model, _guess_model, _cyl, _material, _cif,
                                            _cif_block, _frameseq, _chopper))
